@@ -305,6 +305,42 @@ func c04Child(a *ChildArgs) {
 				}
 			}
 		}
+		// eighth round: an opener followed by a name that merely begins with the second word ("ORDER byé", "LEFT joins",
+		// "GROUPING sets_1"): two tokens, the opener alone and the whole name, whatever follows the look-alike prefix
+		for _, cw := range [][2]string{{"GROUP", "BY"}, {"ORDER", "BY"}, {"LEFT", "JOIN"}, {"RIGHT", "JOIN"}, {"INNER", "JOIN"}, {"FULL", "JOIN"}, {"CROSS", "JOIN"}, {"NATURAL", "JOIN"},
+			{"GROUPING", "SETS"}, {"LEFT", "OUTER"}, {"FULL", "OUTER"}} {
+			for ti, tail := range []string{"x", "_1", "9", "\u00e9", "\u65e5\u672c", "\u00c9t\u00e9", "\u0436"} {
+				for cs := 0; cs < 2; cs++ {
+					second := cw[1]
+					if cs == 1 {
+						second = strings.ToLower(second)
+					}
+					name := second + tail
+					for si, sep := range []string{" ", "\n", "\t", " /* c */ ", "  "} {
+						text := "t " + cw[0] + sep + name + " c"
+						a.Rec.Count("evaluations", 1)
+						a.Rec.Distinct("texts", text)
+						toks, err := mustTokenizer().Tokenize([]byte(text))
+						id := fmt.Sprintf("C04/compound-lookalike/%s %s/tail-%d/sep-%d", cw[0], cw[1], ti, si)
+						wit := map[string]string{"text": text}
+						if err != nil {
+							a.Rec.Viol(id+"/rejected", "every lexeme sequence of the documented lexical grammar is tokenized", firstLine(err.Error()), wit)
+							continue
+						}
+						var vals []string
+						for _, t := range toks {
+							if t.Token.Type != models.TokenTypeEOF {
+								vals = append(vals, t.Token.Value)
+							}
+						}
+						if len(vals) != 4 || !strings.EqualFold(vals[1], cw[0]) || vals[2] != name {
+							a.Rec.Viol(id+"/split", "maximal munch: a name is one token, and a compound keyword needs its second word to be a whole word",
+								fmt.Sprintf("token values %q, want [t %s %s c]", vals, cw[0], name), wit)
+						}
+					}
+				}
+			}
+		}
 	case "soup":
 		// texts not built from the reference grammar: character soup over an SQL-ish alphabet. No expectation about
 		// acceptance; when the text is accepted, nothing of it may be lost: every byte lies in a token span, in a comment
